@@ -419,7 +419,14 @@ def g_programs(ctx, rng, i):
         except TensorComputationError:
             failed = True
     else:
-        for e in edges:
+        # staged evaluation: a diagram may be evaluated, extended and evaluated again (every evaluation must reflect the edges added so far)
+        cut = int(rng.integers(1, len(edges))) if (len(edges) > 1 and i % 4 < 2) else -1
+        for k, e in enumerate(edges):
+            if k == cut:
+                try:
+                    d.calculate()
+                except ValueError:
+                    pass
             try:
                 d.add_edge(*e)
             except TensorComputationError:
@@ -436,6 +443,8 @@ def g_programs(ctx, rng, i):
         d.add_node(nodes[0])
     try:
         d.calculate()
+        if i % 5 == 0:
+            d.calculate()  # evaluating twice gives the same tensor
     except ValueError:
         pass  # incompatible collection shapes: the monitor compares with the reference
 
